@@ -417,9 +417,11 @@ def gen_header_sm(repo, L):
     o += "(* how the registry schedules CheckHeader (live class attributes): depends_on, runs_on_start, runs_on_rule, runs_on_end *)\n"
     o += "Definition header_check_schedule : list str * bool * bool * bool :=\n  ([%s], %s, %s, %s).\n\n" % (
         "; ".join(coq_str(x) for x in chk[0]["depends_on"]), b(chk[0]["start"]), b(chk[0]["rule"]), b(chk[0]["end"]))
-    o += "Definition parse_header (st : hstate) (ev : hevent) : hstate :=\n  %s.\n\n" % SM("parse_header").block(ph.body, False)
+    # call graph allowed (no cycle): check_header calls nothing, parse_header may call check_header, run may call both
     o += "Definition check_header (st : hstate) (ev : hevent) : hstate :=\n  %s.\n\n" % SM(
         "check_header", regex_var=rx, regex_method=method).block(ch.body, False)
+    o += "Definition parse_header (st : hstate) (ev : hevent) : hstate :=\n  %s.\n\n" % SM(
+        "parse_header", methods=("check_header",)).block(ph.body, False)
     o += "Definition run_step (st : hstate) (ev : hevent) : hstate :=\n  %s.\n\n" % SM(
         "run", methods=("parse_header", "check_header")).block(run.body, True)
     dump = "\n".join(ast.dump(m, include_attributes=False) for m in (ph, ch, run))
